@@ -838,6 +838,136 @@ def rule_r7(prog, res):
               c15.rule_r9, prog, Result)
 
 
+def _lock_names(mod):
+    """Module-level names bound to a threading lock."""
+    out = set()
+    for nm, v in mod.consts.items():
+        if isinstance(v, ast.Call) and call_name(v) in ('Lock', 'RLock'):
+            out.add(nm)
+    return out
+
+
+def _enclosing_lock(node, stop, locks):
+    p_ = getattr(node, '_parent', None)
+    while p_ is not None and p_ is not stop:
+        if isinstance(p_, ast.With) and any(
+                unparse(it.context_expr) in locks or
+                unparse(it.context_expr).split('.')[-1].endswith('lock')
+                for it in p_.items):
+            return p_
+        p_ = getattr(p_, '_parent', None)
+    return None
+
+
+def rule_r8(prog, res):
+    res.rule('R8', 'state of objects all request threads share is read in '
+             'the critical section that wrote it: the error log of the shared '
+             'schema with its validate() call, the lazy set_app() of a shared '
+             'out protocol under a re-checked lock; namespace prefixes are '
+             'handed out when the interface is built')
+    x = prog.cls('spyne.protocol.xml:XmlDocument')
+    cands = [m for k, m in x.methods.items() if k.endswith('validate_lxml')]
+    if not cands:
+        raise AnalysisError('XmlDocument.__validate_lxml', 'not found')
+    f = cands[0]
+    locks = _lock_names(f.module)
+    vals = [c for c in calls_in(f.node) if call_name(c) in (
+        'validate', 'assertValid', 'assert_')]
+    res.floor('R8', 'validate() calls in __validate_lxml', len(vals), 1)
+    reads = [a for a in walk_no_defs(f.node) if isinstance(a, ast.Attribute)
+             and a.attr == 'error_log' and unparse(a.value).startswith(
+                 'self.')]
+    for a in reads:
+        w_ = _enclosing_lock(a, f.node, locks)
+        ok = w_ is not None and any(
+            c in list(ast.walk(w_)) for c in vals)
+        where = '%s:%d' % (f.module.relpath, a.lineno)
+        res.ob('R8', where, '%s reads %s %s' % (
+            f.qualname, unparse(a), 'in the locked section of its validate()'
+            if ok else 'outside the section that filled it'),
+            'ok' if ok else 'VIOLATED')
+        if not ok:
+            res.finding('R8', 'XmlDocument.__validate_lxml|shared-error-log',
+                        where, 'the fault text is read from %s after '
+                        'validate() returned, without a lock spanning both: '
+                        'the schema object is shared by all request threads '
+                        'and lxml clears and refills the log on every '
+                        'validate(), so a caller gets the message of another '
+                        'request\'s document or the text None' % unparse(a))
+    # lazy binding of a shared out protocol
+    n = 0
+    for cfq in ('spyne.context:MethodContext',
+                'spyne.server.http:HttpMethodContext'):
+        c = prog.cls(cfq)
+        for m in c.methods.values():
+            for call in calls_in(m.node):
+                if call_name(call) != 'set_app' or not isinstance(
+                        call.func, ast.Attribute):
+                    continue
+                n += 1
+                lk = _enclosing_lock(call, m.node, _lock_names(m.module))
+                rechecked = False
+                if lk is not None:
+                    from ..flow import guards_at, flatten_guards
+                    inner = flatten_guards(guards_at(call, stop=lk))
+                    rechecked = any(
+                        unparse(e).endswith('.app is None') and pol
+                        for e, pol in inner)
+                ok = lk is not None and rechecked
+                where = '%s:%d' % (m.module.relpath, call.lineno)
+                res.ob('R8', where, '%s binds the out protocol %s' % (
+                    m.qualname, 'under a lock, re-checking inside' if ok else
+                    'with an unguarded check-then-act'),
+                    'ok' if ok else 'VIOLATED')
+                if not ok:
+                    res.finding('R8', '%s|unguarded-lazy-set_app' %
+                                m.qualname, where, '%s tests <protocol>.app '
+                                'is None and then calls set_app() without a '
+                                'lock that is re-checked inside: two first '
+                                'requests that switch to the same shared out '
+                                'protocol both see None, the second set_app() '
+                                'asserts and that caller gets a Server fault'
+                                % m.qualname)
+    res.floor('R8', 'lazy set_app() calls in the method contexts', n, 1)
+    i = prog.cls('spyne.interface._base:Interface')
+    pop = i.methods.get('populate_interface')
+    addc = i.methods.get('add_class')
+    if pop is None or addc is None:
+        raise AnalysisError('Interface.populate_interface/add_class',
+                            'not found')
+    eager = False
+    for lp in walk_no_defs(pop.node):
+        if isinstance(lp, ast.For) and 'self.classes' in unparse(lp.iter):
+            names = {y.id for y in ast.walk(lp.target)
+                     if isinstance(y, ast.Name)}
+            for call in ast.walk(lp):
+                if isinstance(call, ast.Call) and call_name(call) == \
+                        'get_namespace_prefix' and call.args and any(
+                            isinstance(y, ast.Name) and y.id in names
+                            for y in ast.walk(call.args[0])):
+                    from ..flow import guards_at, flatten_guards
+                    if not flatten_guards(guards_at(call, stop=pop.node)):
+                        eager = True
+    for call in calls_in(addc.node):
+        if call_name(call) == 'get_namespace_prefix':
+            from ..flow import guards_at, flatten_guards
+            g = [unparse(e) for e, _ in flatten_guards(
+                guards_at(call, stop=addc.node))]
+            if all('has_class' in t for t in g):
+                eager = True
+    res.ob('R8', pop.where, 'Interface gives every class namespace its '
+           'prefix %s' % ('while it is built' if eager else 'on first use'),
+           'ok' if eager else 'VIOLATED')
+    if not eager:
+        res.finding('R8', 'Interface|lazy-prefix-allocation', pop.where,
+                    'namespace prefixes are only allocated when a schema '
+                    'build or a response first needs them: when the first '
+                    '?wsdl races with a polymorphic response the numbering '
+                    '(s0, s1, ...) follows the interleaving, so the cached '
+                    'WSDL and the response are bytes that no sequential '
+                    'order produces')
+
+
 def run(prog, res, tier):
     res.run_rule(rule_r1, prog, res)
     res.run_rule(rule_r2, prog, res, tier)
@@ -846,6 +976,7 @@ def run(prog, res, tier):
     res.run_rule(rule_r5, prog, res)
     res.run_rule(rule_r6, prog, res)
     res.run_rule(rule_r7, prog, res)
+    res.run_rule(rule_r8, prog, res)
 
 
 _W = 'spyne/server/wsgi.py'
@@ -854,6 +985,42 @@ _P = 'spyne/protocol/_base.py'
 _M = 'spyne/util/memo.py'
 
 MUTANTS = [
+    Mutant('error-log-read-after-unlock', 'R8', 'fire',
+           'spyne/protocol/xml.py',
+           in_func('XmlDocument.__validate_lxml',
+                   "            last_error = self.validation_schema.error_log"
+                   ".last_error\n\n",
+                   "\n        last_error = self.validation_schema.error_log."
+                   "last_error\n"), 'shared-error-log'),
+    Mutant('validation-unlocked', 'R8', 'fire', 'spyne/protocol/xml.py',
+           in_func('XmlDocument.__validate_lxml',
+                   "        with _validation_lock:\n", "        if True:\n"),
+           'shared-error-log'),
+    Mutant('bind-without-lock', 'R8', 'fire', 'spyne/context.py',
+           in_func('MethodContext._bind_out_protocol',
+                   "            with _protocol_bind_lock:\n",
+                   "            if True:\n"), 'unguarded-lazy-set_app'),
+    Mutant('bind-without-recheck', 'R8', 'fire', 'spyne/context.py',
+           in_func('MethodContext._bind_out_protocol',
+                   "            with _protocol_bind_lock:\n"
+                   "                if self._out_protocol.app is None:\n",
+                   "            with _protocol_bind_lock:\n"
+                   "                if True:\n"), 'unguarded-lazy-set_app'),
+    Mutant('prefixes-on-first-use', 'R8', 'fire', 'spyne/interface/_base.py',
+           in_func('Interface.populate_interface',
+                   "        for cls in self.classes.values():\n"
+                   "            self.get_namespace_prefix(cls.get_namespace())"
+                   "\n", ""), 'lazy-prefix-allocation'),
+    Mutant('prefixes-for-some-classes', 'R8', 'fire',
+           'spyne/interface/_base.py',
+           in_func('Interface.populate_interface',
+                   "        for cls in self.classes.values():\n"
+                   "            self.get_namespace_prefix(cls.get_namespace())"
+                   "\n",
+                   "        for cls in self.classes.values():\n"
+                   "            if issubclass(cls, ComplexModelBase):\n"
+                   "                self.get_namespace_prefix(cls."
+                   "get_namespace())\n"), 'lazy-prefix-allocation'),
     Mutant('verdict-from-shared-error-log', 'R7', 'fire',
            'spyne/protocol/xml.py',
            in_func('XmlDocument.__validate_lxml', "if ret == False:",
